@@ -1466,7 +1466,14 @@ def _is_copy_of(copy: Any, original: Any) -> bool:
             )
         )
 
-    return copy is original or getattr(copy, "__wrapped__", None) is original
+    wrapped = getattr(copy, "__wrapped__", None)
+
+    # (A copy of a default provided by ``object`` wraps it in two steps, see ``_defer_to_next_in_mro``.)
+    return (
+        copy is original
+        or wrapped is original
+        or getattr(wrapped, "__wrapped__", None) is original
+    )
 
 
 def _resolve_without_copies(cls: type, name: str) -> Any:
@@ -1485,6 +1492,46 @@ def _resolve_without_copies(cls: type, name: str) -> Any:
                 return value
 
     return None
+
+
+def _defer_to_next_in_mro(cls: type, name: str, default: Callable[..., Any]) -> Any:
+    """
+    Stand in for the ``default`` which ``object`` provides for the special method ``name`` of the ``cls``.
+
+    The class keeps a wrapped copy of the special methods which it inherits so that the invariants are checked around
+    them. The defaults of ``object`` are only a fall-back, though. In a sub-class which lists further bases
+    (``class Derived(cls, Mixin)``), Python finds the definition of such a base *before* the default of ``object``,
+    and a copy of the default held by ``cls`` must not hide it. The copy therefore looks the method up
+    the way Python would have if ``cls`` held no copy: in the classes which follow ``cls`` in the method resolution order
+    of the instance.
+    """
+
+    def deferring(self: Any, *args: Any, **kwargs: Any) -> Any:
+        """Call the method which follows the class holding the copy in the method resolution order."""
+        return getattr(super(cls, self), name)(*args, **kwargs)  # type: ignore
+
+    functools.update_wrapper(wrapper=deferring, wrapped=default)
+
+    return deferring
+
+
+def _defer_new_to_next_in_mro(cls: type) -> Any:
+    """Stand in for ``object.__new__`` of the ``cls`` the way ``_defer_to_next_in_mro`` does for the special methods."""
+
+    def deferring(klass: Any, *args: Any, **kwargs: Any) -> Any:
+        """Call the ``__new__`` which follows the class holding the copy in the method resolution order."""
+        next_new = super(cls, klass).__new__  # type: ignore
+
+        if next_new is object.__new__ and klass.__init__ is not object.__init__:
+            # A derived class defines __init__: the remaining arguments are meant for it. ``object.__new__``
+            # accepts them only as long as __new__ is not overridden, which the copy does.
+            return next_new(klass)
+
+        return next_new(klass, *args, **kwargs)
+
+    functools.update_wrapper(wrapper=deferring, wrapped=object.__new__)
+
+    return deferring
 
 
 def add_invariant_checks(cls: ClassT) -> None:
@@ -1624,6 +1671,9 @@ def add_invariant_checks(cls: ClassT) -> None:
                     new_func = native
                     unshadowed.add("__new__")
 
+            if new_func is object.__new__ and "__new__" not in cls.__dict__:
+                new_func = _defer_new_to_next_in_mro(cls=cls)
+
             wrapper = _decorate_new_with_invariants(new_func)
             if wrapper is not new_func or "__new__" in unshadowed:
                 if wrapper is not new_func and "__new__" not in cls.__dict__:
@@ -1644,6 +1694,9 @@ def add_invariant_checks(cls: ClassT) -> None:
     # classes which come later in the method resolution order of a common sub-class.
 
     for name, func in names_funcs:
+        if name not in cls.__dict__ and func is getattr(object, name, None):
+            func = _defer_to_next_in_mro(cls=cls, name=name, default=func)
+
         # ``__setstate__`` establishes the state of a blank object (``copy`` and ``pickle`` call it right after
         # ``__new__``, ``__init__`` is not run). Like a constructor, it can only be followed by the invariants:
         # there is nothing yet which they could hold for beforehand.
